@@ -378,6 +378,28 @@ fn container_modules(out: &mut Vec<ZooModule>) {
         .def("Tnullroot", Ty::Seq { set: false, comps: vec![Comp::new("n", Ty::Null), Comp::new("x", Ty::Bool), Comp::new("a", Ty::int_r(0, 7)), Comp::new("b", Ty::Bool).opt()], ext_after: Some(2) })
         .def("Tfixroot", Ty::Seq { set: false, comps: vec![Comp::new("v", Ty::int_r(5, 5)), Comp::new("x", Ty::int_r(0, 7)), Comp::new("a", Ty::Bool), Comp::new("b", Ty::int_r(0, 3)).opt()], ext_after: Some(2) })
         .def("Tnulloptroot", Ty::Seq { set: true, comps: vec![Comp::new("n", Ty::Null).opt(), Comp::new("x", Ty::Bool), Comp::new("a", Ty::int_r(0, 7))], ext_after: Some(2) })
+        // every kind of zero-bit mandatory root component in front of extension additions
+        .def("Tempty", Ty::seq(vec![]))
+        .def(
+            "Tzerobits",
+            Ty::Seq {
+                set: false,
+                comps: vec![
+                    Comp::new("e", Ty::r("Tempty")),
+                    Comp::new("o", Ty::oct(Size::Fix(0, false))),
+                    Comp::new("en", Ty::enum_n(1)),
+                    Comp::new("s", Ty::string(Charset::Ia5, Size::Fix(0, false))),
+                    Comp::new("l", Ty::seq_of(Size::Fix(0, false), Ty::Bool)),
+                    Comp::new("x", Ty::Bool),
+                    Comp::new("a", Ty::int_r(0, 7)),
+                    Comp::new("b", Ty::Bool).opt(),
+                ],
+                ext_after: Some(6),
+            },
+        )
+        // extension indices of 64 and more (normally small number in its long form) on generated types
+        .def("Tenumx70", Ty::Enum { root: vec![("r0".into(), None), ("r1".into(), None)], ext: Some((0..70).map(|i| (format!("x{i}"), None)).collect()) })
+        .def("Tchoicex70", Ty::Choice { alts: std::iter::once(Alt::new("r0", Ty::Bool)).chain((0..70).map(|i| Alt::new(&format!("x{i}"), Ty::int_r(0, 7)))).collect(), ext_after: Some(1) })
         .def("Tref1", Ty::r("Tref2"))
         .def("Tref2", Ty::r("Tinner"))
         .def("Tinline", Ty::seq(vec![Comp::new("pick", Ty::choice(vec![Alt::new("i", Ty::int_r(0, 7)), Alt::new("s", ia5(Size::Fix(2, false)))])), Comp::new("en", Ty::enum_n(3)).opt(), Comp::new("sq", Ty::seq(vec![Comp::new("z", Ty::Bool)]))]))
